@@ -95,7 +95,8 @@ def _run(self):
     _gate(self, 'started')
     _talk(self)
     if self.beh == 'raise':
-        raise ValueError(f'boom {self.label}')
+        # explicitly chained: what run_tasks reports must be the task's own exception, not the one it was raised from
+        raise ValueError(f'boom {self.label}') from KeyError(f'inner {self.label}')
     faildir = os.environ.get('LV_FAILDIR')
     if faildir and os.path.exists(os.path.join(faildir, f'fail_{self.label}')):
         raise ValueError(f'boom (this run) {self.label}')
@@ -227,6 +228,26 @@ def _vpost_init(self):
     object.__setattr__(self, 'derived', ('derived', repr(getattr(self, 'x', None))))
 
 
+def _canon(v):
+    if isinstance(v, str):
+        return v.strip().lower()
+    if isinstance(v, tuple) and len(v) >= 2:
+        return tuple(sorted(v, key=repr))      # idempotent, like any sensible canonicalisation
+    return v
+
+
+def _vrewrite_post_init(self):
+    # a post_init that canonicalises one of the task's own parameters
+    object.__setattr__(self, 'x', _canon(self.x))
+    object.__setattr__(self, 'derived', ('canon', repr(self.x)))
+
+
+def make_rewrite_type():
+    cls = type('VRewrite', (), {'__annotations__': {'x': Any}, 'run': _vrun, 'post_init': _vrewrite_post_init,
+                                '__module__': __name__, '__qualname__': 'VRewrite'})
+    return labtech.task(cls)
+
+
 V1 = make_vtype('V1', ['a', 'b'])
 V2 = make_vtype('V2', ['x'])
 V = make_vtype('V', ['x'])                       # name is a prefix of V1, V2, VV
@@ -234,6 +255,12 @@ VV = make_vtype('VV', ['x'], ret=int)
 VJ = make_vtype('VJ', ['x'], cache=JsonCache())
 VN = make_vtype('VN', ['x'], cache=None)
 VPost = make_vtype('VPost', ['x'], post_init=True)
+VRewrite = make_rewrite_type()
+def _vret(self):
+    return self.x
+
+
+VRet = labtech.task(type('VRet', (), {'__annotations__': {'x': Any, 'i': int}, 'run': _vret, '__module__': __name__, '__qualname__': 'VRet'}))
 VALUE_TYPES = {'V1': V1, 'V2': V2, 'V': V, 'VV': VV, 'VJ': VJ, 'VN': VN, 'VPost': VPost}
 ENUMS = {'Color': Color, 'Shade': Shade}
 
